@@ -756,6 +756,105 @@ def boundary(ctx):
     ctx.extra["out_of_family_hole_witnesses"] = {"pending": PENDING_FINDINGS, "results": res}
 
 
+# ------------------------------------------------------------------------------------------------ (5) near-equal / tiny weights
+NEAR_BASES = (1000, 30000, 300000, 10 ** 6, 10 ** 7, 10 ** 8, 10 ** 9)
+TINY_EXPS = (10, 20, 24, 27, 30, 33, 35, 40)
+ASSUMPTIONS_NEAR = [
+    "extension (5): nearly-equal weights are integers w+e (w in 1e3..1e9, |e| <= 3: relative differences 1e-3..1e-9, "
+    "on both sides of numpy's default isclose rtol 1e-5) or dyadic w*(1+j*2^-t); tiny weights are whole rows of "
+    "{1,2,3,5,17} multiplied by 2^-10..2^-40 (on both sides of isclose's atol 1e-8); all exactly representable in "
+    "float64 and as Lean rationals, so the oracle, the rescale-invariance predicate (factor 2^-k) and the "
+    "block-wise-vs-permanent predicate are evaluated at the usual 1e-9; blocks have at most 6 rows and a dynamic "
+    "range <= 17 inside each row (far from the open Glynn-cancellation regime)",
+]
+
+
+def gen_near_equal(rng, quick):
+    """in-family cases whose non-row-constant blocks are only APPROXIMATELY row-constant (or become so when one
+    path's weights are rescaled): the exact code path (permanent_prob) must still be taken"""
+    from props import c02 as B
+    cases = []
+    n_each = 90 if quick else 900
+
+    def lasts_for(m, full):
+        if full:
+            return tuple([m] * m)
+        ls = sorted(max(k + 1, rng.randint(k + 1, m)) for k in range(m))
+        return B.random_valid(rng, sorted(ls))
+
+    def emit(kind, m, seq, tbl, rescale):
+        off = 1 if rng.random() < 0.85 else 0
+        W = B.build(off, seq, lambda k, c: tbl[k][c], wminus=rng.choice(B.WSET))
+        locks = B.random_locks(rng, off + m, True, rng.choice((0.0, 0.0, 0.25)))
+        c = {"kind": kind, "off": off, "W": W, "locks": locks, "cross": True}
+        if rescale is not None:
+            c["rescale"] = (off + rescale[0], rescale[1])
+        cases.append(c)
+
+    for _ in range(n_each):
+        # (1) integer weights w + e: every row nearly constant, not exactly
+        m = rng.choice((2, 2, 3, 3, 4, 5, 6))
+        tbl = []
+        for _k in range(m):
+            w = rng.choice(NEAR_BASES)
+            row = [w + rng.randint(-3, 3) for _c in range(m)]
+            if len(set(row)) == 1:
+                row[rng.randrange(m)] += 1
+            tbl.append(row)
+        emit("near-equal-int", m, lasts_for(m, rng.random() < 0.6), tbl,
+             (rng.randrange(m), 2.0 ** -rng.choice(TINY_EXPS)) if rng.random() < 0.5 else None)
+    for _ in range(n_each // 2):
+        # (1b) dyadic relative differences w * (1 + j * 2^-t)
+        m = rng.choice((2, 3, 3, 4, 5))
+        t = rng.choice((10, 14, 17, 20, 24, 27, 30))
+        tbl = []
+        for _k in range(m):
+            w = rng.choice((1, 3, 5, 17, 1000))
+            row = [w * (1.0 + rng.randint(0, 3) * 2.0 ** -t) for _c in range(m)]
+            if len(set(row)) == 1:
+                row[rng.randrange(m)] = w * (1.0 + 2.0 ** -t)
+            tbl.append(row)
+        emit("near-equal-dyadic", m, lasts_for(m, rng.random() < 0.6), tbl, None)
+    for _ in range(n_each):
+        # (2) free weights, every plus row multiplied by a power of two down to 2^-40 (unequal but tiny)
+        m = rng.choice((2, 2, 3, 3, 4, 5, 6))
+        same = rng.random() < 0.5
+        k0 = rng.choice(TINY_EXPS)
+        tbl = []
+        for _k in range(m):
+            f = 2.0 ** -(k0 if same else rng.choice(TINY_EXPS))
+            row = [rng.choice(WMILD) * f for _c in range(m)]
+            if len(set(row)) == 1 and m > 1:
+                row[0] = (17 if row[0] != 17 * f else 1) * f
+            tbl.append(row)
+        emit("tiny-rows", m, lasts_for(m, rng.random() < 0.6), tbl,
+             (rng.randrange(m), 2.0 ** rng.choice((10, 30, 40))) if rng.random() < 0.3 else None)
+    for _ in range(n_each):
+        # (3) row-constant rows and ONE free row; rescaling that path by 2^-k must change nothing
+        m = rng.choice((2, 3, 3, 4, 5, 6))
+        r = rng.randrange(m)
+        tbl = []
+        for k in range(m):
+            if k == r:
+                row = [rng.choice(WMILD) for _c in range(m)]
+                if len(set(row)) == 1:
+                    row[0] = 17 if row[0] != 17 else 1
+            else:
+                row = [rng.choice(B.WSET)] * m
+            tbl.append(row)
+        emit("rescale-to-tiny", m, tuple([m] * m), tbl, (r, 2.0 ** -rng.choice(TINY_EXPS)))
+    return cases
+
+
+def near_equal_tie(ctx):
+    from props import c02 as B
+    rng = random.Random(f"C02-near:{ctx.seed}")
+    cases = gen_near_equal(rng, ctx.quick)
+    B.evaluate_family(ctx, B.Code(), cases, "near-equal")
+    ctx.extra["ext_near_equal_cases"] = len(cases)
+    ctx.assumptions += ASSUMPTIONS_NEAR
+
+
 def run_ext(ctx):
     rng = random.Random(f"C02-ext:{ctx.seed}")
     with np.errstate(all="ignore"):
@@ -770,7 +869,11 @@ def run_ext(ctx):
             cache_tie(ctx)
             t3 = ctx.elapsed()
             boundary(ctx)
-    ctx.extra["ext_timing_s"] = {"prep": round(t1 - t0, 2), "random_prob": round(t2 - t1, 2), "cache": round(t3 - t2, 2)}
+            t4 = ctx.elapsed()
+            near_equal_tie(ctx)
+            t5 = ctx.elapsed()
+    ctx.extra["ext_timing_s"] = {"prep": round(t1 - t0, 2), "random_prob": round(t2 - t1, 2), "cache": round(t3 - t2, 2),
+                                 "near_equal": round(t5 - t4, 2)}
     ctx.assumptions += ASSUMPTIONS
 
 
